@@ -64,7 +64,7 @@ NoneFn == [n \in Ids |-> None]
 
 ZeroStats == [events |-> 0, queries |-> 0, reads |-> 0, execs |-> 0,
               sets |-> 0, commits |-> 0, restarts |-> 0, justified |-> 0,
-              cyc |-> 0]
+              cyc |-> 0, ambig |-> 0]
 
 InitFor(p) ==
     /\ prog = p
@@ -77,7 +77,7 @@ InitFor(p) ==
     /\ pendSample = [n \in 1..Len(p.nodes) |-> None]
     /\ epoch = 0
     /\ live = {}
-    /\ snap = [t \in 0..3 |-> [n \in 1..Len(p.nodes) |-> None]]
+    /\ snap = [t \in 0..15 |-> [n \in 1..Len(p.nodes) |-> None]]
     /\ lastRun = [n \in 1..Len(p.nodes) |-> [has |-> FALSE, reads |-> <<>>]]
     /\ ran = {}
     /\ running = {}
@@ -101,8 +101,12 @@ EnvOf(inp) ==
                    ELSE None]
 
 (* From-scratch values of every node under the committed inputs.           *)
-ValNow == Valuation(prog, EnvOf(inputs))
-ValAt(t) == Valuation(prog, EnvOf(snap[t]))
+ValFor(inp) == IF Acyclic(prog) THEN Valuation(prog, EnvOf(inp))
+               ELSE CycValuation(prog, EnvOf(inp))
+ValNow == ValFor(inputs)
+ValAt(t) == ValFor(snap[t])
+(* cyclic programs are judged only where the reference value is agreed (C06) *)
+Judged(inp) == Acyclic(prog) \/ CycSimple(prog, EnvOf(inp))
 
 VK(idx, kind, n, got, want, kf) ==
     [at |-> idx, kind |-> kind, n |-> n, got |-> got, want |-> want, ep |-> epoch, kf |-> kf,
@@ -279,13 +283,14 @@ DropTracked(idx, t) ==
 Query(idx, t, n, v) ==
     /\ LET want == ValAt(t)[n]
            label == IF v # want THEN KfOfUser(n) ELSE ""
-       IN /\ viol' = IF v # want
+       IN /\ viol' = IF v # want /\ Judged(snap[t])
                      THEN Append(viol, VK(idx, "query_value", n, v, want, label))
                      ELSE viol
           \* n stays verified with this value for the rest of the epoch
           /\ kfTaint' = IF label # "" /\ kfTaint[n] = ""
                         THEN [kfTaint EXCEPT ![n] = label] ELSE kfTaint
-    /\ stats' = Bump("queries")
+    /\ stats' = [stats EXCEPT !.queries = @ + 1,
+                              !.ambig = @ + (IF Judged(snap[t]) THEN 0 ELSE 1)]
     \* a firewall/projection whose changing run was the user's own direct
     \* query gets no backward projection propagation (KF_PBP call site)
     /\ bpSkip' = IF n \in topDone THEN bpSkip \cup {n} ELSE bpSkip
@@ -317,7 +322,7 @@ BadReads(reads, val) ==
 (* check is made the moment the value is handed over.                      *)
 Read(idx, n, d, v) ==
     LET val == ValNow
-        bad == v # val[d]
+        bad == v # val[d] /\ Judged(inputs)
         label == IF bad THEN KfOf(d, val) ELSE ""
     IN  /\ viol' = IF bad THEN Append(viol, VK(idx, "read_value", d, v, val[d], label)) ELSE viol
         /\ kfTaint' = IF bad /\ label # ""
@@ -436,6 +441,16 @@ Recovered(idx, obs) ==
                    ELSE Append(viol, V(idx, "recovered_inputs_not_a_committed_state", 0, 0, 0))
         /\ UNCHANGED <<prog, pend, insess, refreshing, world, sample, pendSample, epoch,
                        rdrVars, runVars, kfVars, crVars, stats>>
+
+(* C02/C04/C05/C06: every request completes.                              *)
+Hang(idx) ==
+    /\ viol' = Append(viol, V(idx, "no_progress", 0, 0, 0))
+    /\ UNCHANGED <<prog, sessVars, world, rdrVars, runVars, kfVars, crVars, stats>>
+
+(* C05: a panic reaches the caller only if an executor panicked.            *)
+QueryPanicked(idx, n) ==
+    /\ viol' = Append(viol, V(idx, "query_panicked", n, 0, 0))
+    /\ UNCHANGED <<prog, sessVars, world, rdrVars, runVars, kfVars, crVars, stats>>
 
 CrashPanic(idx) ==
     /\ viol' = Append(viol, V(idx, "crash_open_panic", 0, 0, 0))
